@@ -256,6 +256,87 @@ Proof.
 Qed.
 
 (* ---------- checksums ---------- *)
+
+(* ---------- the shape of a checksums.txt line ---------- *)
+Definition blanks (s : list ascii) : Prop := forallb is_space s = true.
+
+Lemma drop_spaces_decomp s : exists sp, s = sp ++ drop_spaces s /\ blanks sp.
+Proof.
+  induction s as [|c r IH]; cbn [drop_spaces].
+  - exists []. split; reflexivity.
+  - destruct (is_space c) eqn:E.
+    + destruct IH as (sp & H1 & H2). exists (c :: sp). split; [cbn; congruence|].
+      unfold blanks in *. cbn. rewrite E, H2. reflexivity.
+    + exists []. split; reflexivity.
+Qed.
+
+Lemma span_word_decomp s : forall w t, span_word s = (w, t) -> s = w ++ t /\ forallb (fun c => negb (is_space c)) w = true.
+Proof.
+  induction s as [|c r IH]; cbn [span_word]; intros w t H.
+  - inversion H. split; reflexivity.
+  - destruct (is_space c) eqn:E.
+    + inversion H. split; reflexivity.
+    + destruct (span_word r) as [w1 t1]. inversion H; subst. destruct (IH w1 t eq_refl) as [H1 H2].
+      split; [cbn; congruence|]. cbn. rewrite E, H2. reflexivity.
+Qed.
+
+Lemma rstrip_decomp s : exists sp, s = rstrip s ++ sp /\ blanks sp.
+Proof.
+  unfold rstrip. destruct (drop_spaces_decomp (rev s)) as (sp & H1 & H2).
+  exists (rev sp). split.
+  - rewrite <- rev_app_distr, <- H1, rev_involutive. reflexivity.
+  - unfold blanks in *. rewrite forallb_forall in *. intros x Hx. apply H2. apply in_rev. assumption.
+Qed.
+
+Lemma strip_star_decomp s : exists st, s = st ++ strip_star s /\ (st = [] \/ st = ["*"%char]).
+Proof.
+  destruct s as [|c r]; cbn [strip_star].
+  - exists []. split; [reflexivity|left; reflexivity].
+  - destruct (Ascii.eqb c "*") eqn:E.
+    + apply Ascii.eqb_eq in E. subst c. exists ["*"%char]. split; [reflexivity|right; reflexivity].
+    + exists []. split; [reflexivity|left; reflexivity].
+Qed.
+
+(* what a line must look like for (h, n) to be its entry: blanks, the digest (no blank in it), at least one blank, an optional
+   '*', then the name up to the end of the line but for trailing blanks - nothing of the line is left out of the name *)
+Theorem line_entry_shape l h n :
+  line_entry l = Some (h, n) ->
+  exists sp1 sp2 st sp3,
+    l = sp1 ++ h ++ sp2 ++ st ++ n ++ sp3 /\ blanks sp1 /\ blanks sp2 /\ sp2 <> [] /\ blanks sp3 /\
+    (st = [] \/ st = ["*"%char]) /\ h <> [] /\ n <> [] /\ forallb (fun c => negb (is_space c)) h = true.
+Proof.
+  unfold line_entry. destruct (drop_spaces_decomp l) as (sp1 & Hl & Hb1).
+  destruct (span_word (drop_spaces l)) as [w rest] eqn:Es.
+  destruct (span_word_decomp _ _ _ Es) as [Hw Hns].
+  destruct w as [|c w]; [discriminate|]. destruct rest as [|d rest]; [discriminate|].
+  destruct (rstrip (strip_star (drop_spaces (d :: rest)))) as [|n0 ns] eqn:En; [discriminate|].
+  intros [= <- <-].
+  destruct (drop_spaces_decomp (d :: rest)) as (sp2 & Hr & Hb2).
+  destruct (strip_star_decomp (drop_spaces (d :: rest))) as (st & Hst & Hstar).
+  destruct (rstrip_decomp (strip_star (drop_spaces (d :: rest)))) as (sp3 & Hn & Hb3).
+  rewrite En in Hn.
+  exists sp1, sp2, st, sp3. split.
+  - rewrite Hl at 1. rewrite Hw. rewrite Hr at 1. rewrite Hst at 1. rewrite Hn at 1.
+    rewrite <- ?app_assoc. reflexivity.
+  - split; [assumption|]. split; [assumption|]. split.
+    + intros ->. cbn in Hr.
+      (* the field ended at d, so d is a blank and drop_spaces consumed it *)
+      assert (Hd : is_space d = true).
+      { clear -Es. revert Es. generalize (drop_spaces l) as s. intros s. revert c w.
+        induction s as [|x r IH]; cbn [span_word]; intros c w H; [discriminate|].
+        destruct (is_space x) eqn:Ex; [discriminate|].
+        destruct (span_word r) as [w1 t1] eqn:E1. inversion H; subst.
+        destruct w as [|c2 w2].
+        - destruct r as [|y r']; cbn [span_word] in E1; [discriminate|].
+          destruct (is_space y) eqn:Ey; [inversion E1; subst; assumption|].
+          destruct (span_word r'); discriminate.
+        - eapply IH. reflexivity. }
+      cbn [drop_spaces] in Hr. rewrite Hd in Hr.
+      pose proof (f_equal (@List.length ascii) Hr) as Hlen. cbn in Hlen.
+      destruct (drop_spaces_decomp rest) as (q & Hq & _). rewrite Hq in Hlen at 1. rewrite app_length in Hlen. lia.
+    + split; [assumption|]. split; [assumption|]. split; [discriminate|]. split; [discriminate|]. assumption.
+Qed.
+
 Lemma ascii_list_eqb_eq a b : ascii_list_eqb a b = true <-> a = b.
 Proof. unfold ascii_list_eqb. destruct (list_eq_dec ascii_dec a b); split; congruence. Qed.
 
